@@ -8,25 +8,25 @@ VERIF = os.path.dirname(os.path.dirname(os.path.abspath(__file__)))
 # property -> (technique, level text, level note, design ref)
 # property -> technique (the level text comes from the checker's own description of the rules: vcheck -list-json)
 TECHNIQUE = {
- "C01": "path-sensitive exploration (event bits for Content-Length / Transfer-Encoding matches, facts on connectionClose and the framing cell) of the request head field loop; serve-loop error exploration; byte-comparison coverage of the chunk-size scanner; return classification of the body readers the serve loop dispatches (rejection / framed-reader verdict / success guarded by the declared framing); callee identity of every comparison of a scanned field name with a framing field name",
- "C03": "value-flow to the bounding writer and bounded-use classification of its methods, path-sensitive nil-return exploration of writeBodyFixedSize, control-dependence of body emission on the no-body predicate, must-pass rules in SetContentLength, serve-loop HEAD exploration; chunk-marker rule (terminator is last, data chunks length-tested); Content-Length installation through the generic setter removes Transfer-Encoding on every path",
- "C02": "path-sensitive exploration of the serve loop's SSA CFG over a finite abstraction (event bits + boolean/nil facts): must-close / must-check obligations per iteration; must-pass (reach-avoiding) rule: chunked-EOF flag raised only after the trailer reader and an examination of its error; use-after-release rule for the pooled request stream held in a field (releasing routines derived through parameter flow)",
+ "C01": "path-sensitive exploration (event bits for Content-Length / Transfer-Encoding matches, facts on connectionClose and the framing cell) of the request head field loop; serve-loop error exploration; byte-comparison coverage of the chunk-size scanner; return classification of the body readers the serve loop dispatches (rejection / framed-reader verdict / success guarded by the declared framing); callee identity of every comparison of a scanned field name with a framing field name; reader-release rule of the serve loop (released between requests only when found empty or on an error)",
+ "C03": "value-flow to the bounding writer and bounded-use classification of its methods, path-sensitive nil-return exploration of writeBodyFixedSize, control-dependence of body emission on the no-body predicate, must-pass rules in SetContentLength, serve-loop HEAD exploration; chunk-marker rule (terminator is last, data chunks length-tested); Content-Length installation through the generic setter removes Transfer-Encoding on every path; chunked stream writer: data already read is framed before a read error ends the loop",
+ "C02": "path-sensitive exploration of the serve loop's SSA CFG over a finite abstraction (event bits + boolean/nil facts): must-close / must-check obligations per iteration; must-pass (reach-avoiding) rule: chunked-EOF flag raised only after the trailer reader and an examination of its error; use-after-release rule for the pooled request stream held in a field (releasing routines derived through parameter flow); reader-release rule of the serve loop (no release while a body stream may read through it)",
  "C04": "connection typestate in RoundTrip by path-sensitive exploration (dispose-exactly-once counter, pooled-only-after-clean-read), control-dependence of pooling in the stream-close closure, select-case typestate of pooled pipeline work items, per-item typestate of the pipeline writer; header-overwrite-before-close ordering rule with inputs recomputed from the stream-close closure (must-write summaries); restore-before-hand-back rule for Response.SkipBody (reach-avoiding from the raising store to every return / completion send); completion-channel typestate of the pipeline worker (pending queue drained only after both goroutines reported their end)",
  "C39": "typestate of spawned children by path-sensitive exploration of the supervision function (recorded + waited before any return, hook or next spawn), dominance of the deferred teardown, ordering rules (reach-avoiding searches) inside the teardown; dominance of cmd.Wait() over the creation of every RecoverInterval timer; grace timer created outside loops",
  "C40": "loop-carried tuple coupling by alias-tracking exploration of the selection loop, penalty pairing (counters in the abstract state), nil-result handling and panic reachability over the static call graph; self-derivation of every assignment of the candidate list; lockset and container-alias check of the candidate list",
  "C41": "semaphore pairing and select-case typestate by path-sensitive exploration of tryDial, provenance of the connect context's bound, wrap-on-return rule, must-pass rules in the rotation loop; must-pass rule for the lazy creation of the concurrency channel on every configuration branch; deadline examination on the resolver-failure return",
- "C05": "backward cleanliness (taint) analysis with sanitiser classes over SSA: reaching definitions of scratch fields, in-place and returning neutraliser summaries, call-site resolution of helper parameters, induction over checked storage fields; neutraliser shape precondition; scan-coverage of the neutralisers in the zone (difference-bound) domain",
+ "C05": "backward cleanliness (taint) analysis with sanitiser classes over SSA: reaching definitions of scratch fields, in-place and returning neutraliser summaries, call-site resolution of helper parameters, induction over checked storage fields; neutraliser shape precondition; scan-coverage of the neutralisers in the zone (difference-bound) domain; proxy CONNECT target: whole-string CR/LF test of every value written to the proxy (provenance through closures and field stores)",
  "C06": "as C05 with two sanitiser classes (CR/LF and ';') for Cookie fields and the request cookie list; out-parameter completeness of the cookie scanners by path-sensitive exploration; one-field-per-attribute rule for the cookie parser (may-write sets of callees per attribute branch)",
- "C07": "limit-flow: interprocedural propagation of limit parameters, use classification (compared / limited reader / forwarded), loop-carried staleness of the serve loop's limit variable, must-pass rules on the error response path; per-path must-precede rule for buffering reads in limit-rejecting functions; forwarded-limit rule: a limit passed to a limit-taking callee is never merged with a non-positive constant where the received limit is positive",
- "C10": "backward condition slicing (interprocedural atoms of the close decision) + path-sensitive exploration of the serve loop; loop-exit classification after a written response; callee identity of every comparison with the close token; optional-whitespace class of the list-member trimmer (byte constants / Trim cut sets)",
- "C11": "field-coverage must-analysis of reset methods (forward dataflow, intersection at joins, callee summaries) + loop-carried staleness exploration of the serve loop; ctx-state family: handler-settable RequestCtx fields (derived from exported setters) cleared / found zero / replaced on every path to the next request",
- "C12": "counter pairing by path-sensitive exploration with counters in the abstract state (deferred calls applied at exit, ownership hand-offs as rule events), control-dependence of admission on the limit comparison, must-pass rules on rejection paths; must-assignment of every field of a pooled per-IP wrapper on the acquiring paths that hand it out; discriminator-agnostic unregister pairing of the wrappers' Close (closed flag or taken connection)",
- "C13": "lockset must-analysis (guarded-by table), critical-section atomicity by reach-avoiding searches, path-sensitive per-iteration typestate of the worker loop; container-alias escape analysis on guarded slices; who-may-write rule for the worker count (start +1, exit -1, at most once per path)",
+ "C07": "limit-flow: interprocedural propagation of limit parameters, use classification (compared / limited reader / forwarded), loop-carried staleness of the serve loop's limit variable, must-pass rules on the error response path; per-path must-precede rule for buffering reads in limit-rejecting functions; forwarded-limit rule: a limit passed to a limit-taking callee is never merged with a non-positive constant where the received limit is positive; default-limit rule: limit-taking calls of the serve loop receive the raw configuration field",
+ "C10": "backward condition slicing (interprocedural atoms of the close decision) + path-sensitive exploration of the serve loop; loop-exit classification after a written response; callee identity of every comparison with the close token; optional-whitespace class of the list-member trimmer (byte constants / Trim cut sets); must-pass rule: a store lowering the close flag is followed on every path by the removal of the stored Connection entries",
+ "C11": "field-coverage must-analysis of reset methods (forward dataflow, intersection at joins, callee summaries) + loop-carried staleness exploration of the serve loop; ctx-state family: handler-settable RequestCtx fields (derived from exported setters) cleared / found zero / replaced on every path to the next request; slot-fill rule for recycled args/cookie entries",
+ "C12": "counter pairing by path-sensitive exploration with counters in the abstract state (deferred calls applied at exit, ownership hand-offs as rule events), control-dependence of admission on the limit comparison, must-pass rules on rejection paths; must-assignment of every field of a pooled per-IP wrapper on the acquiring paths that hand it out; discriminator-agnostic unregister pairing of the wrappers' Close (closed flag or taken connection); worker-loop terminal rule shared with C13",
+ "C13": "lockset must-analysis (guarded-by table), critical-section atomicity by reach-avoiding searches, path-sensitive per-iteration typestate of the worker loop; container-alias escape analysis on guarded slices; who-may-write rule for the worker count (start +1, exit -1, at most once per path); must-precede rule: fresh clock reading stored into the appended worker's idle stamp on every path of release to the append",
  "C14": "typestate automaton over constant ConnState arguments explored on every path of the serve loop's SSA CFG; typestate of callers that run the serve loop and report states themselves; identity of the connection value passed to the hook; pooled wrapper recycled only after the terminal report (dominance of the StateClosed report over every call of the releasing routine)",
- "C15": "path-sensitive exploration of the serve loop: ordering of idle-marker stores, handler dispatch and stop-flag loads; dirty-writer typestate (written response flushed before a nil-result end); done-channel / flag coupling by reach-avoiding searches; idle marker only with an empty write buffer (dirty-writer bit of the serve-loop exploration); lock span of ShutdownWithContext",
+ "C15": "path-sensitive exploration of the serve loop: ordering of idle-marker stores, handler dispatch and stop-flag loads; dirty-writer typestate (written response flushed before a nil-result end); done-channel / flag coupling by reach-avoiding searches; idle marker only with an empty write buffer (dirty-writer bit of the serve-loop exploration); lock span of ShutdownWithContext; must-pass rule on the drain loop: success exit only through a zero test of the open counter itself (value identity of the tested operand)",
  "C16": "path-sensitive exploration of the serve loop's timeout branch: value identity of the ctx written/released, stale-field reads after the swap; semaphore placement rules for the timeout wrapper (release only after the wrapped handler, in its goroutine; creation-on-read of the channel); re-imposition of ctx bookkeeping after every (re)acquisition of the ctx; reachability of connection writes from exported RequestCtx methods, accepted only under the ctx's timeout lock after a nil test of timeoutResponse, with the installation under the same lock",
- "C17": "path-sensitive exploration (ordering and never-after rules) of the serve loop's hijack branch and of hijackConnHandler; ctx-state family for hijack fields; must-pass rule: unconditional SetDeadline(zero) between any armed deadline and the hijack hand-off",
- "C18": "connsCount pairing per function (counters in the abstract state, contracts of callees), lockset must-analysis with a guarded-by table, bound check control-dependence and critical-section atomicity by reach-avoiding searches; container-alias escape analysis on the idle list; waiter cancellation on every give-up return (deferred closure or reach-avoiding search)",
+ "C17": "path-sensitive exploration (ordering and never-after rules) of the serve loop's hijack branch and of hijackConnHandler; ctx-state family for hijack fields; must-pass rule: unconditional SetDeadline(zero) between any armed deadline and the hijack hand-off; never-after rule: no wrapper-recycling call with the value reported StateHijacked before the variable is redefined",
+ "C18": "connsCount pairing per function (counters in the abstract state, contracts of callees), lockset must-analysis with a guarded-by table, bound check control-dependence and critical-section atomicity by reach-avoiding searches; container-alias escape analysis on the idle list; waiter cancellation on every give-up return (deferred closure or reach-avoiding search); wantConn.cancel: lock precedes every return, delivered connection read under the lock and given back on every non-nil path (edge-sensitive walk at the nil test)",
  "C19": "path-sensitive exploration of the retry loop (per-transmission must-pass events, loop-invariance of the body-stream flag, retry-decision phi), condition atoms of the idempotency predicate, constant retry flags of the transport's early returns",
  "C20": "reach-avoiding (must-pass) searches between hops of the redirect loop, constant sets of deleted header names, backward value slicing of the trust anchor (derives from the URL string, not from Request storage; loop-invariant); path rule for the 303 teardown (every step on every path through the branch), callee classification of the strip's deleters (case-insensitive over stored names) and of the host comparison (ASCII-only folding); path rule: every return of the case-insensitive deleter follows the sweep or a 'normalised' test; comparator bodies scanned for bit-or folding",
  "C21": "path-sensitive exploration: scheme comparison on every path to the transport, TLS-typed results of dialAddr under the TLS flag; value-flow of the map-selecting flag into HostClient.IsTLS; derivation/examination rule for every re-parse during reference resolution; information-loss rule: a function that copies URI.RequestURI() into the header does not lower parsedURI (may-analysis over callees); parse-error test dominates the scheme comparison; lockset and container-alias check of the idle-connection list",
